@@ -24,20 +24,74 @@ local macro "rel_step_tac" : tactic => `(tactic| (
       notifiedAll_self] <;>
     (split <;> first | omega | (refine ⟨_, rfl, ?_⟩; constructor <;> simp_all [Kind.sinking] <;> omega))))
 
+theorem rel_step_value (k : Kind) (w : Watch) (f : Fut) (h : Rel k w f) :
+    ∃ w', watchStep k w (observe f .value).2 = .ok w' ∧
+      Rel k { w' with runs := (observe f .value).2.runs } (observe f .value).1 := by
+  obtain ⟨hk, hkn, hs, hr, hb, hsink⟩ := h
+  subst hk
+  rel_step_tac
+
+theorem rel_step_error (k : Kind) (w : Watch) (f : Fut) (h : Rel k w f) :
+    ∃ w', watchStep k w (observe f .error).2 = .ok w' ∧
+      Rel k { w' with runs := (observe f .error).2.runs } (observe f .error).1 := by
+  obtain ⟨hk, hkn, hs, hr, hb, hsink⟩ := h
+  subst hk
+  rel_step_tac
+
+theorem rel_step_call (k : Kind) (w : Watch) (f : Fut) (h : Rel k w f) :
+    ∃ w', watchStep k w (observe f .call).2 = .ok w' ∧
+      Rel k { w' with runs := (observe f .call).2.runs } (observe f .call).1 := by
+  obtain ⟨hk, hkn, hs, hr, hb, hsink⟩ := h
+  subst hk
+  rel_step_tac
+
+theorem rel_step_isComputed (k : Kind) (w : Watch) (f : Fut) (h : Rel k w f) :
+    ∃ w', watchStep k w (observe f .isComputed).2 = .ok w' ∧
+      Rel k { w' with runs := (observe f .isComputed).2.runs } (observe f .isComputed).1 := by
+  obtain ⟨hk, hkn, hs, hr, hb, hsink⟩ := h
+  subst hk
+  rel_step_tac
+
+theorem rel_step_setValue (k : Kind) (w : Watch) (f : Fut) (v : Nat) (h : Rel k w f) :
+    ∃ w', watchStep k w (observe f (.setValue v)).2 = .ok w' ∧
+      Rel k { w' with runs := (observe f (.setValue v)).2.runs } (observe f (.setValue v)).1 := by
+  obtain ⟨hk, hkn, hs, hr, hb, hsink⟩ := h
+  subst hk
+  rel_step_tac
+
+theorem rel_step_setError (k : Kind) (w : Watch) (f : Fut) (e : Nat) (h : Rel k w f) :
+    ∃ w', watchStep k w (observe f (.setError e)).2 = .ok w' ∧
+      Rel k { w' with runs := (observe f (.setError e)).2.runs } (observe f (.setError e)).1 := by
+  obtain ⟨hk, hkn, hs, hr, hb, hsink⟩ := h
+  subst hk
+  rel_step_tac
+
+theorem rel_step_reset (k : Kind) (w : Watch) (f : Fut) (h : Rel k w f) :
+    ∃ w', watchStep k w (observe f .reset).2 = .ok w' ∧
+      Rel k { w' with runs := (observe f .reset).2.runs } (observe f .reset).1 := by
+  obtain ⟨hk, hkn, hs, hr, hb, hsink⟩ := h
+  subst hk
+  rel_step_tac
+
+theorem rel_step_subscribe (k : Kind) (w : Watch) (f : Fut) (i : Nat) (r : Bool) (h : Rel k w f) :
+    ∃ w', watchStep k w (observe f (.subscribe i r)).2 = .ok w' ∧
+      Rel k { w' with runs := (observe f (.subscribe i r)).2.runs } (observe f (.subscribe i r)).1 := by
+  obtain ⟨hk, hkn, hs, hr, hb, hsink⟩ := h
+  subst hk
+  rel_step_tac
+
 theorem rel_step (k : Kind) (w : Watch) (f : Fut) (op : Op) (h : Rel k w f) :
     ∃ w', watchStep k w (observe f op).2 = .ok w' ∧
       Rel k { w' with runs := (observe f op).2.runs } (observe f op).1 := by
-  obtain ⟨hk, hkn, hs, hr, hb, hsink⟩ := h
-  subst hk
-  cases op
-  case value => rel_step_tac
-  case error => rel_step_tac
-  case call => rel_step_tac
-  case isComputed => rel_step_tac
-  case setValue => rel_step_tac
-  case setError => rel_step_tac
-  case reset => rel_step_tac
-  case subscribe => rel_step_tac
+  cases op with
+  | value => exact rel_step_value k w f h
+  | error => exact rel_step_error k w f h
+  | call => exact rel_step_call k w f h
+  | isComputed => exact rel_step_isComputed k w f h
+  | setValue v => exact rel_step_setValue k w f v h
+  | setError e => exact rel_step_setError k w f e h
+  | reset => exact rel_step_reset k w f h
+  | subscribe i r => exact rel_step_subscribe k w f i r h
 
 theorem watchRun_ok (k : Kind) (ops : List Op) (w : Watch) (f : Fut) (h : Rel k w f) :
     ∃ w', watchRun k w (run f ops) = .ok w' := by
